@@ -225,8 +225,8 @@ theorem corr_mload (hs : SimpSound s) (hR : R I env code p st f) (hsat : Sat I s
   obtain ⟨rwf, rmap⟩ := readMem_rel hR.mem loc 32
   have hword := bytesWord_rel hs (I := I) rwf (readMem_length _ _ _)
   rw [rmap] at hword
-  refine Or.inl ⟨_, f', rfl, hsat, rfl, CReach.single hstep,
-    hR.next hctx.1 hctx.2.1 hctx.2.2.1 hctx.2.2.2.1 hctx.2.2.2.2 ?_ ?_ (hR.subst.same rfl rfl) ?_⟩
+  refine Corr.cont0 hsat rfl (CReach.single hstep)
+    (hR.next hctx rfl ?_ ?_ (hR.subst.same rfl rfl) ?_)
   · rw [hpc, hR.pc]
   · rw [hfs]; exact StackRel.cons hword hr
   · rw [hfm]; exact hR.mem
@@ -250,8 +250,8 @@ theorem corr_mstore (hs : SimpSound s) (hR : R I env code p st f) (hsat : Sat I 
   cases e
   have hbytes := wordBytes_rel (I := I) wf
   rw [d, hwv.2.2] at hbytes
-  refine Or.inl ⟨_, f', rfl, hsat, rfl, CReach.single hstep,
-    hR.next hctx.1 hctx.2.1 hctx.2.2.1 hctx.2.2.2.1 hctx.2.2.2.2 ?_ ?_ (hR.subst.same rfl rfl) ?_⟩
+  refine Corr.cont0 hsat rfl (CReach.single hstep)
+    (hR.next hctx rfl ?_ ?_ (hR.subst.same rfl rfl) ?_)
   · rw [hpc, hR.pc]
   · rw [hfs]; exact hr
   · rw [hfm]; exact writeMem_rel hR.mem hbytes loc
@@ -291,8 +291,8 @@ theorem corr_mstore8 (hs : SimpSound s) (hR : R I env code p st f) (hsat : Sat I
     refine ⟨?_, ?_⟩
     · intro b hb; rw [List.mem_singleton.1 hb]; exact ⟨z1, z2⟩
     · simp only [List.map_cons, List.map_nil, z3, d]
-  refine Or.inl ⟨_, f', rfl, hsat, rfl, CReach.single hstep,
-    hR.next hctx.1 hctx.2.1 hctx.2.2.1 hctx.2.2.2.1 hctx.2.2.2.2 ?_ ?_ (hR.subst.same rfl rfl) ?_⟩
+  refine Corr.cont0 hsat rfl (CReach.single hstep)
+    (hR.next hctx rfl ?_ ?_ (hR.subst.same rfl rfl) ?_)
   · rw [hpc, hR.pc]
   · rw [hfs]; exact hr
   · rw [hfm]; exact writeMem_rel hR.mem hbytes loc
@@ -338,8 +338,8 @@ theorem corr_copyToMem (hR : R I env code p st f) (hsat : Sat I st.path) (hmem :
     have hnil : cdata = [] := by
       rw [← hd.2, h0]; rfl
     rw [hnil, writeBytes_nil] at hfm
-    refine Or.inl ⟨_, f', rfl, hsat, rfl, CReach.single hs1,
-      hR.next hctx.1 hctx.2.1 hctx.2.2.1 hctx.2.2.2.1 hctx.2.2.2.2 ?_ ?_ (hR.subst.same rfl rfl) ?_⟩
+    refine Corr.cont0 hsat rfl (CReach.single hs1)
+      (hR.next hctx rfl ?_ ?_ (hR.subst.same rfl rfl) ?_)
     · rw [hpc, hR.pc]
     · rw [hfs]; exact hr
     · rw [hfm]; exact hR.mem
@@ -347,8 +347,8 @@ theorem corr_copyToMem (hR : R I env code p st f) (hsat : Sat I st.path) (hmem :
     · exact Corr.limit rfl
     · rename_i hle
       obtain ⟨f', hs1, hctx, hpc, hfs, hfm⟩ := hstep (Or.inr (by omega))
-      refine Or.inl ⟨_, f', rfl, hsat, rfl, CReach.single hs1,
-        hR.next hctx.1 hctx.2.1 hctx.2.2.1 hctx.2.2.2.1 hctx.2.2.2.2 ?_ ?_ (hR.subst.same rfl rfl) ?_⟩
+      refine Corr.cont0 hsat rfl (CReach.single hs1)
+        (hR.next hctx rfl ?_ ?_ (hR.subst.same rfl rfl) ?_)
       · rw [hpc, hR.pc]
       · rw [hfs]; exact hr
       · rw [hfm]; exact writeMem_rel hR.mem hd loc
@@ -439,8 +439,8 @@ theorem corr_codecopy_empty (hs : SimpSound s) (hR : R I env code p st f) (hsat 
       (Or.inl rfl)
   have : Evm.readBytes f.code c2 0 = [] := by simp [Evm.readBytes]
   rw [this, writeBytes_nil] at hfm
-  refine Or.inl ⟨_, f', rfl, hsat, rfl, CReach.single hs1,
-    hR.next hctx.1 hctx.2.1 hctx.2.2.1 hctx.2.2.2.1 hctx.2.2.2.2 ?_ ?_ (hR.subst.same rfl rfl) ?_⟩
+  refine Corr.cont0 hsat rfl (CReach.single hs1)
+    (hR.next hctx rfl ?_ ?_ (hR.subst.same rfl rfl) ?_)
   · rw [hpc, hR.pc]
   · rw [hfs]; exact r3
   · rw [hfm]; exact hR.mem
